@@ -1,4 +1,4 @@
-"""F-C20 (a), (b) -- OPEN: the status `doit info` shows is the decision `doit run` takes (as `list -s` already does).
+"""F-C20 (a), (b) (repaired by commit e6acbba): the status `doit info` shows is the decision `doit run` takes (as `list -s` already does).
 Two scenarios; in each, `list -s` agrees with `run` and `info` does not ((c), the ignored task, is repaired:
 F-C20-info-ignore.py):
  (a) a file_dep missing + another one modified      run: dependency error   list: E   info: run
